@@ -3,11 +3,13 @@ CONSTANTS
   Precerts = {"p1", "p2"}
   MaxClock = 50
   MaxTree = 50
+  FrontEnds = {"A", "B"}
+  CacheWriteFirst = FALSE
 INIT TraceInit
 NEXT TraceNext
 VIEW TraceView
 CONSTRAINT HighWater
-INVARIANTS STHFaithful DupStable SCTBindsStored SingleIndex QueueSound
-PROPERTIES TraceAppendOnly
+INVARIANTS STHFaithful STHVerifies DupStable SCTBindsStored SingleIndex QueueSound
+PROPERTIES TraceAppendOnly TraceSCTOnlyOn200
 POSTCONDITION TraceAccepted
 CHECK_DEADLOCK FALSE
